@@ -140,13 +140,13 @@ impl TopicActor {
         TopicView { subs: self.subscriptions@, tid: self.topic_internal_id, next: self.next_message_id, deleted: self.deleted }
     }
 
-//@fn src/topics/topic_actor.rs TopicActor::attach_subscription tags=C01,C11
+//@fn src/topics/topic_actor.rs TopicActor::attach_subscription tags=C11
 //@ ret r
 //@ ensures r.is_ok()
 //@ # insert-if-absent: an attached name is never overwritten
 //@ ensures[C11] old(self)@.subs.dom().contains(subscription.name) ==> final(self)@ == old(self)@
 //@ proof-before /^\s*Ok\(\(\)\)\s*$/ { assert(old(self)@.subs.dom().contains(subscription.name) ==> self@.subs =~= old(self)@.subs); }
-//@ ensures[C01,C11] !old(self)@.subs.dom().contains(subscription.name) ==> final(self)@ == (TopicView { subs: old(self)@.subs.insert(subscription.name, subscription), ..old(self)@ })
+//@ ensures[C01] !old(self)@.subs.dom().contains(subscription.name) ==> final(self)@ == (TopicView { subs: old(self)@.subs.insert(subscription.name, subscription), ..old(self)@ })
 //@end
 
 //@fn src/topics/topic_actor.rs TopicActor::remove_subscription tags=C11
@@ -164,13 +164,13 @@ impl TopicActor {
 //@ ensures[C11] !old(self)@.deleted ==> final(self)@ == (TopicView { subs: Map::empty(), deleted: true, ..old(self)@ })
 //@end
 
-//@fn src/topics/topic_actor.rs TopicActor::publish_messages tags=C08,C09 name=TopicActor::publish_ids n3=1 tail=(message_ids,~messages)
+//@fn src/topics/topic_actor.rs TopicActor::publish_messages tags=C08 name=TopicActor::publish_ids n3=1 tail=(message_ids,~messages)
 //@ region /let mut message_ids = Vec::with_capacity\(messages\.len\(\)\);/ /^\s*n3_acc \};\s*$/ as fn publish_ids(&mut self, messages: Vec<TopicMessage>, publish_time: SystemTime) -> (r: (Vec<MessageId>, Vec<Arc<TopicMessage>>))
 //@ # A-ARITH: fewer than 2^32 - 1 messages per topic
 //@ requires old(self)@.next + messages@.len() <= u32::MAX
 //@ # C08: exactly one id per submitted message, in request order, counter strictly increasing
 //@ ensures[C08] r.0@.len() == messages@.len() && r.1@.len() == messages@.len()
-//@ ensures[C08,C09] ids_ok(r.0@, old(self)@.tid, old(self)@.next as int, messages@.len() as int)
+//@ ensures[C08] ids_ok(r.0@, old(self)@.tid, old(self)@.next as int, messages@.len() as int)
 //@ # C09: message i of the batch carries exactly the submitted payload and attributes, the id returned for it, one publish time
 //@ ensures[C09] batch_ok(r.1@, r.0@, messages@, publish_time, messages@.len() as int)
 //@ ensures[C08] final(self)@ == (TopicView { next: (old(self)@.next + messages@.len()) as u32, ..old(self)@ })
@@ -198,7 +198,7 @@ pub mod tm {
 //@ ensures[C10] r@ == (TmView { topics: Map::empty(), next_id: 1 })
 //@end
 
-//@fn src/topics/topic_manager.rs State::create_topic tags=C09,C10
+//@fn src/topics/topic_manager.rs State::create_topic tags=C10
 //@ ret r
 //@ # A-ARITH: fewer than 2^32 - 1 topics per process
 //@ requires old(self)@.next_id < u32::MAX
@@ -207,15 +207,18 @@ pub mod tm {
 //@ # ... a failed create changes nothing
 //@ ensures[C10] r.is_err() ==> final(self)@ == old(self)@
 //@ # ... a successful create inserts exactly this name with a fresh internal id (C09: never reused, delete does not touch next_id)
-//@ ensures[C09,C10] r.is_ok() ==> r.unwrap().name == name && r.unwrap().internal_id == old(self)@.next_id + 1 && final(self)@ == (TmView { topics: old(self)@.topics.insert(name, r.unwrap()), next_id: (old(self)@.next_id + 1) as u32 })
+//@ ensures[C10] r.is_ok() ==> r.unwrap().name == name && final(self)@.topics == old(self)@.topics.insert(name, r.unwrap())
+//@ # C09: the internal id is fresh: one above every id handed out before, and the counter only grows
+//@ ensures[C09] r.is_ok() ==> r.unwrap().internal_id == old(self)@.next_id + 1 && final(self)@.next_id == old(self)@.next_id + 1
 //@ proof-before /^\s*Err\(CreateTopicError::AlreadyExists\)\s*$/ { assert(self@.topics =~= old(self)@.topics); }
 //@end
     }
     // TopicManagerDelegate::delete: the statement executed under the write lock
-//@fn src/topics/topic_manager.rs TopicManagerDelegate::delete tags=C09,C10,C11 name=tm_delete_region
+//@fn src/topics/topic_manager.rs TopicManagerDelegate::delete tags=C11 name=tm_delete_region
 //@ region /state\.topics\.remove\(topic_name\);/ /state\.topics\.remove\(topic_name\);/ as fn tm_delete_region(state: &mut State, topic_name: &TopicName)
 //@ # C09: deleting a topic never resets the id counter, so a re-created topic gets a fresh internal id
-//@ ensures[C09,C10,C11] final(state)@ == (TmView { topics: old(state)@.topics.remove(*topic_name), next_id: old(state)@.next_id })
+//@ ensures[C11] final(state)@.topics == old(state)@.topics.remove(*topic_name)
+//@ ensures[C09] final(state)@.next_id == old(state)@.next_id
 //@end
 }
 
@@ -235,12 +238,14 @@ pub mod sm {
 //@ ensures[C10] r@ == (SmView { subscriptions: Map::empty(), next_id: 1 })
 //@end
 
-//@fn src/subscriptions/subscription_manager.rs State::create_subscription tags=C10,C13
+//@fn src/subscriptions/subscription_manager.rs State::create_subscription tags=C10
 //@ ret r
 //@ requires old(self)@.next_id < u32::MAX
 //@ ensures[C10] r.is_ok() <==> !old(self)@.subscriptions.dom().contains(info.name)
 //@ ensures[C10] r.is_err() ==> final(self)@ == old(self)@
-//@ ensures[C10,C13] r.is_ok() ==> r.unwrap().name == info.name && r.unwrap().internal_id == old(self)@.next_id + 1 && final(self)@ == (SmView { subscriptions: old(self)@.subscriptions.insert(info.name, r.unwrap()), next_id: (old(self)@.next_id + 1) as u32 })
+//@ ensures[C10] r.is_ok() ==> r.unwrap().name == info.name && final(self)@.subscriptions == old(self)@.subscriptions.insert(info.name, r.unwrap())
+//@ # C13: listing order = creation order: internal ids grow with every create
+//@ ensures[C13] r.is_ok() ==> r.unwrap().internal_id == old(self)@.next_id + 1 && final(self)@.next_id == old(self)@.next_id + 1
 //@ proof-before /^\s*Err\(CreateSubscriptionError::AlreadyExists\)\s*$/ { assert(self@.subscriptions =~= old(self)@.subscriptions); }
 //@end
     }
@@ -251,9 +256,10 @@ pub mod sm {
 //@ ensures[C10] r.is_err() ==> r == Err::<(), CreateSubscriptionError>(CreateSubscriptionError::MustBeInSameProjectAsTopic)
 //@end
     // SubscriptionManagerDelegate::delete / TopicManagerDelegate::delete: the statement executed under the write lock
-//@fn src/subscriptions/subscription_manager.rs SubscriptionManagerDelegate::delete tags=C10,C11 name=sm_delete_region
+//@fn src/subscriptions/subscription_manager.rs SubscriptionManagerDelegate::delete tags=C11 name=sm_delete_region
 //@ region /let _ = state\.subscriptions\.remove\(name\);/ /let _ = state\.subscriptions\.remove\(name\);/ as fn sm_delete_region(state: &mut State, name: &SubscriptionName)
-//@ ensures[C10,C11] final(state)@ == (SmView { subscriptions: old(state)@.subscriptions.remove(*name), next_id: old(state)@.next_id })
+//@ ensures[C11] final(state)@.subscriptions == old(state)@.subscriptions.remove(*name)
+//@ ensures[C13] final(state)@.next_id == old(state)@.next_id
 //@end
 }
 } // verus!
